@@ -1371,11 +1371,14 @@ class FlowProposal(RejectionProposal):
             r = self.fixed_radius
         else:
             logger.debug(f"Populating with worst point: {worst_point}")
+            # Do not overwrite worst_point, it is used later to compute the
+            # acceptance if check_acceptance is enabled
+            radius_points = worst_point
             if self.compute_radius_with_all:
                 logger.debug("Using previous live points to compute radius")
-                worst_point = self.training_data
+                radius_points = self.training_data
             worst_z = self.forward_pass(
-                worst_point, rescale=True, compute_radius=True
+                radius_points, rescale=True, compute_radius=True
             )[0]
             r = self.radius(worst_z)
             if self.max_radius and r > self.max_radius:
